@@ -298,6 +298,13 @@ def cmdSimCtx (c : SimCtx) (t : List String) : SimCtx × String :=
         | (none, _) => (c, "fail")
       | _, _, _, _ => bad
     else bad
+  | ["nulldev", ports] =>
+    match (if ports == "-" then some [] else parseList parseW ports ",") with
+    | some ps =>
+      match s.dev.addDevice .null ps with
+      | (some id, dev') => ({ c with sim := { s with dev := dev' } }, toString id)
+      | (none, _) => (c, "fail")
+    | none => bad
   | ["rmdev", id] => match id.toNat? with
     | some id => ({ c with sim := { s with dev := s.dev.removeDevice id } }, "ok")
     | none => bad
